@@ -223,6 +223,11 @@ class _G:
             keys = self.intkeys(1, 5, 2)
         else:
             keys = [self.obj('party', None, 1) for _ in range(2)]
+            # candidate objects hash by identity, the Lean values compare by content: two keys with equal content are two keys in
+            # Python and one in the model (its precondition WFval asks for distinct keys), so the names are made distinct here;
+            # equal-content keys are exercised by the directed class_identity_keys cases, without the model
+            for key, nm in zip(keys, self.r.sample(['A', 'B', 'C', 'D', 'E', 'Greens'], 2)):
+                key['args']['name'] = {'t': 'str', 'v': nm}
         return self.dct(keys, lambda: self.I(0, 3))
 
     # -- objects
